@@ -18,3 +18,8 @@ for _n, _def, _fn, _extra in (("epub", "-DPKG_EPUB", "epub_create", ["epub_conta
       functions=[_fn] + (["opendocument_core_file_create", "opendocument_core_zip"] if _n == "odt" else []),
       callees={"mz_zip_writer_add_mem / mz_zip_writer_finalize_heap_archive": "logging contract (ghost member table)", "content generators, scratch pad, add_assets": "contract", "d_string_*": "lib/ds_sink.c", "strlen": "contract stub lib/libc_stubs.c", "strcpy": "CBMC built-in (unwound, constant source)"},
       assumptions=["miniz by logging contract; generated XML/JSON text uninterpreted"])
+
+U("c09_asset_new", ["C09"], "h_asset", ["C09/asset.c"], ["writer.c"], plain=True, lib=("lib/libc_models.c",), kind="bounded",
+  defines=["-DI18N_DISABLED=1"], cbmc_flags=["--unwind", "8", "--unwinding-assertions", "--object-bits", "10"], bounds={"url length<=": 3, "unwind": 8},
+  functions=["asset_new", "my_strdup (writer.c)"], callees={"uuid_new": "contract stub (fresh string; trusted base)", "srand": "contract stub with precondition false", "strlen/strcpy": "byte-loop models"},
+  min_obligations=5, timeout=200, cost=5, assumptions=[NOFAIL])
